@@ -22,19 +22,20 @@ type mixedParams struct {
 	LongBigSeg bool // with 1 KiB and larger segments up to 3x MaxSteps steps (a sealed segment then holds more than 8 transactions)
 	FaultPct   int  // per cent of multi-call transactions whose Commit gets an injected write error (both twins get the same one)
 	MultiKV    int  // > 1: some transactions consist of 2..MultiKV key/value writes spread over the buckets
+	ClockPct   int  // per cent of cases that run under the virtual clock (clock steps; puts that expire within seconds of it)
 }
 
-func genMixedOp(structs bool, buckets, kvKeys, sKeys []string, fill bool) func(t *rapid.T) Op {
+func genMixedOp(structs bool, buckets, kvKeys, sKeys []string, fill bool, clk *clockGen) func(t *rapid.T) Op {
 	lop := genListOp(buckets, sKeys)
 	sop := genSetOp(buckets, sKeys)
 	zop := genZOp(buckets)
 	return func(t *rapid.T) Op {
 		if !structs {
-			return genKVWrite(buckets, kvKeys, fill).Draw(t, "kvop")
+			return genKVWriteClocked(buckets, kvKeys, fill, clk).Draw(t, "kvop")
 		}
 		switch rapid.IntRange(0, 9).Draw(t, "struct") {
 		case 0, 1, 2, 3:
-			return genKVWrite(buckets, kvKeys, fill).Draw(t, "kvop")
+			return genKVWriteClocked(buckets, kvKeys, fill, clk).Draw(t, "kvop")
 		case 4, 5:
 			return lop(t)
 		case 6, 7:
@@ -55,7 +56,12 @@ func genMixedCase(p mixedParams) *rapid.Generator[Case] {
 		kvKeys := shape.Keys
 		sKeys := genKeys(keyAlphabetNoSep, 1, 3, 2).Draw(t, "skeys")
 		structs := p.Structs && c.Cfg.Mode == 0
-		gop := genMixedOp(structs, buckets, kvKeys, sKeys, p.Fill)
+		var clk *clockGen
+		if p.ClockPct > 0 && rapid.IntRange(0, 99).Draw(t, "clocked") < p.ClockPct {
+			clk = &clockGen{Now: clockBase + int64(rapid.IntRange(0, 1000).Draw(t, "clock0"))}
+			c.Steps = append(c.Steps, Step{K: "clock", T: clk.Now})
+		}
+		gop := genMixedOp(structs, buckets, kvKeys, sKeys, p.Fill, clk)
 		maxSteps := p.MaxSteps
 		if p.LongBigSeg && c.Cfg.Seg >= 1024 {
 			maxSteps *= 3
@@ -66,6 +72,9 @@ func genMixedCase(p mixedParams) *rapid.Generator[Case] {
 		n := rapid.IntRange(1, maxSteps).Draw(t, "nsteps")
 		for i := 0; i < n; i++ {
 			r := rapid.IntRange(0, 99).Draw(t, "stepkind")
+			if clk != nil && rapid.IntRange(0, 6).Draw(t, "isclock") == 3 {
+				c.Steps = append(c.Steps, clk.step(t))
+			}
 			switch {
 			case r < p.ReopenPct:
 				c.Steps = append(c.Steps, Step{K: "reopen"})
